@@ -381,10 +381,97 @@ def real_collision(prefix="leaf"):
         tried.append((pfx[:8], names[:2], [a, b]))
     # the encoding admits a collision through engine state that the code reads back: let real threads race for it (only reached
     # when the solver found the VC satisfiable, i.e. never on code whose names are distinct by construction)
+    found, runs = _scheduled_collision(prefix if prefix else "leaf")
+    if found:
+        return True, f"two threads on one engine, {found}"
+    tried.append(f"{runs} line-level schedules of two threads")
     dup = _stress(prefix if prefix else "leaf")
     if dup:
         return True, f"threads racing on one engine: {dup}"
     return False, f"no collision reproduced: {tried}"
+
+
+def _run_schedule(plan, prefix):
+    """Two threads call the real get_relation_name on one engine; a line tracer lets thread `plan[k][0]` execute `plan[k][1]`
+    lines of the function (None = until it returns) in turn.  A thread that cannot take its turn (blocked in a lock the other
+    one holds) is skipped after a short timeout.  -> (name of thread 0, name of thread 1)"""
+    import sys
+    from lsst.daf.relation import GenericConcreteEngine, iteration
+
+    code = GenericConcreteEngine.get_relation_name.__code__
+    e = iteration.Engine(name="sched")
+    cv = threading.Condition()
+    state = {"seg": 0, "left": plan[0][1], "done": [False, False]}
+    out = [None, None]
+
+    def my_turn(i):
+        return state["seg"] >= len(plan) or plan[state["seg"]][0] == i or state["done"][plan[state["seg"]][0]]
+
+    def advance(i):
+        # called by thread i after it was granted one line
+        if state["seg"] < len(plan) and plan[state["seg"]][0] == i and state["left"] is not None:
+            state["left"] -= 1
+            if state["left"] <= 0:
+                state["seg"] += 1
+                state["left"] = plan[state["seg"]][1] if state["seg"] < len(plan) else None
+        cv.notify_all()
+
+    def tracer_for(i):
+        def local(frame, event, arg):
+            if event == "line":
+                with cv:
+                    waited = 0.0
+                    while not my_turn(i) and waited < 0.3:
+                        cv.wait(0.02)
+                        waited += 0.02
+                    if not my_turn(i):  # the scheduled thread is stuck (e.g. waits for a lock this thread holds): skip its segment
+                        state["seg"] += 1
+                        state["left"] = plan[state["seg"]][1] if state["seg"] < len(plan) else None
+                    advance(i)
+            return local
+
+        def glob(frame, event, arg):
+            return local if frame.f_code is code else None
+        return glob
+
+    def work(i):
+        sys.settrace(tracer_for(i))
+        try:
+            out[i] = e.get_relation_name(f"{prefix}")
+        finally:
+            sys.settrace(None)
+            with cv:
+                state["done"][i] = True
+                if state["seg"] < len(plan) and plan[state["seg"]][0] == i:
+                    state["seg"] += 1
+                    state["left"] = plan[state["seg"]][1] if state["seg"] < len(plan) else None
+                cv.notify_all()
+
+    ts = [threading.Thread(target=work, args=(i,)) for i in range(2)]
+    for th in ts:
+        th.start()
+    for th in ts:
+        th.join(10)
+    return out
+
+
+def _scheduled_collision(prefix, max_lines=12):
+    """All schedules of two concurrent requests with at most two pre-emptions at line granularity inside get_relation_name."""
+    runs = 0
+    for first in (0, 1):
+        other = 1 - first
+        for k in range(0, max_lines + 1):
+            plans = [[(first, k), (other, None), (first, None)]]
+            plans += [[(first, k), (other, m), (first, None), (other, None)] for m in range(1, max_lines + 1)]
+            for plan in plans:
+                plan = [seg for seg in plan if seg[1] is None or seg[1] > 0]
+                a, b = _run_schedule(plan, prefix)
+                runs += 1
+                if a is not None and a == b:
+                    return f"schedule {plan} (thread, lines of get_relation_name): both requests returned {a!r}", runs
+                if (a is not None and not a.startswith(prefix)) or (b is not None and not b.startswith(prefix)):
+                    return f"schedule {plan}: a returned name does not start with the requested prefix ({a!r}, {b!r})", runs
+    return None, runs
 
 
 def _stress(prefix, threads=8, calls=6000):
